@@ -37,6 +37,14 @@ claimed = {
    text="Proof per function: delivery iff enabled through ioCore/tee/level-filter/hooked/sampler Check (each verified against the Core.Check interface contract, which is the AddCore accumulation discipline), increase-level validation over all seven levels, LevelOf / tee / AtomicLevel / Logger.Level reports for all 256 int8 values, the Logger.check pre-check does nothing else (no clock read, no Check, no Write).",
    note=BASE_NOTE + "Level enablers are functions of (enabler, level) within one verified call; user cores obey the Core.Check interface contract (encapsulation rely). Out-of-range levels under non-monotone enablers in an increase-level core: not proved.",
    ref="7 (C05)"),
+ "C15": dict(
+   text="Proof of the skip arithmetic, which is all zap's own code contributes: every runtime.Callers call in Capture uses skip+2 (all doubling iterations), Logger.check calls Capture with callerSkip+2 and the full depth exactly when the stack-trace level is enabled for the entry, Capture's loop exits only when the frames fitted (complete chain whatever its depth), Sugar adds exactly 2 and Desugar removes exactly 2 (clone leaves everything else equal), AddCallerSkip(k) adds exactly k, every front end reaches check through the fixed call structure (tracks: one direct call per layer).",
+   note=BASE_NOTE + "runtime.Callers/CallersFrames semantics, inlining, the frame depth of package log (_stdLogDefaultDepth+_loggerWriterDepth = 3) and of slog are assumptions; file/line/function strings come from the runtime and are outside. The composition 'call depth difference 2 = Sugar's +2' is a paper step over the machine-checked pieces (DESIGN.md).",
+   ref="7 (C15)"),
+ "C17": dict(
+   text="Proof of stream conservation for every Write: logged' ++ buffered' == logged ++ buffered ++ input (ghost byte streams, loop invariant over any chunk), the buffered remainder is newline-free, nothing is logged and nothing buffered while the level is disabled, Write returns (len, nil); writeLine by cases on the first newline (direct-log fast path and buffered path log the same bytes); Sync/Close emit the unterminated rest exactly when it is non-empty. From conservation + newline-freedom the messages are exactly the lines, for every partition of every stream.",
+   note=BASE_NOTE + "bytes.Buffer and bytes.IndexByte are assumed (contracts/std/bytesbuf.spec); T-Bytes axioms are trusted; the uniqueness step (conservation + newline-free pieces determine the line split) is a paper lemma. logged[w] is ghost state extended by definition at each call of w.log.",
+   ref="7 (C17)"),
  "C19": dict(
    text="Proof: open() - at the moment closeAll is called the closers slice holds exactly the sinks whose open succeeded (positional countOK invariant over the call log, any number of paths and failure positions), closeAll closes every element, and it is called exactly on the error path; Open/openSinks/Build sequencing (second Open failing closes the first set; after openSinks succeeded Build cannot fail); redirectStdLogAt restores nothing because it changes nothing on error (ghost std-logger cells); file-URL checks (user, fragment, query, port, host) before exactly the path is opened with O_WRONLY|O_APPEND|O_CREATE 0666; RegisterSink/RegisterEncoder leave the registry untouched on error and add exactly one entry otherwise; scheme normalisation loop.",
    note=BASE_NOTE + "url.Parse, filepath.IsAbs, os.OpenFile, package log and strings.ToLower are assumed; real files and descriptors are outside. Config.buildOptions and zap.New are trusted (not verified). A registered nil factory/constructor would panic at use (RegisterSink does not reject nil) - outside the property.",
